@@ -6,7 +6,7 @@ def run(ctx):
     quick = ctx.tier == "quick"
     ctx.build()
     ctx.mc("MC_Units", "MC_Units.cfg", require_actions=False)
-    out = ctx.harness(["units", "--random", "6" if quick else "120"])
+    out = ctx.harness(["units", "--random", "6" if quick else "600"])
     scns = common.split_scenarios(out)
     for s, evs in scns:
         if s.get("from") != s.get("to") or "ctor" in s:
